@@ -62,6 +62,12 @@ func main() {
 		if err := dec.Decode(&r); err != nil {
 			break
 		}
-		enc.Encode(handle(r))
+		ans := handle(r)
+		if _, hung := ans.(hangAnswer); hung {
+			enc.Encode(map[string]any{"hang": true})
+			out.Flush()
+			os.Exit(7)
+		}
+		enc.Encode(ans)
 	}
 }
